@@ -1389,3 +1389,128 @@ def wrapper_theorems(u, done):
             f"intro a b\n  have he : Ext.{Cn}.eq = Hc128.Core.beq := by funext x y; exact ExtTie.{Cn}.eq x y\n"
             f"  simp only [{E}.eq, he, ExtTie.{blk}.index, Hc128.beq]\n  first | done | rfl")
     return th, proofs
+
+# ------------------------------------------------------------------ `loop { … break … }` around draws from a byte source
+def _install4():
+    C = RcFnTr
+    base_body, base_expr_, base_dyn = C.body_to_lean, C.expr_, C.dyn_of
+
+    def expr_(self, e, want=None):
+        if e[0] == "repeat" and want is None and getattr(self.u, "byte_buffers", False):
+            n = self.expr(e[2], "nat")
+            x = self.expr(e[1], "u8")
+            if n.lit is not None and x.ty == "u8" and x.lit is not None:
+                # a byte array that is handed to a source: kept as a list (its length is static)
+                return Val(f"List.replicate {n.lit} {x.atom()}", ("arr", "u8", n.lit))
+        return base_expr_(self, e, want)
+    C.expr_ = expr_
+
+    def dyn_of(self, e):
+        d = base_dyn(self, e)
+        if d is None:
+            x = e
+            while x[0] in ("paren", "ref", "deref") or (x[0] == "mcall" and x[2] in ("as_mut", "as_ref") and not x[3]):
+                x = x[2] if x[0] == "ref" else x[1]
+            if x[0] == "path" and len(x[1]) == 1:
+                v = self.lookup(x[1][0])
+                if v is not None and isinstance(v.ty, tuple) and v.ty[0] == "arr" and v.ty[1] == "u8" and isinstance(v.ty[2], int) \
+                        and v.elems is None and v.lean is not None:
+                    return DynView(v, "0", f"{v.lean}.length")
+        return d
+    C.dyn_of = dyn_of
+
+    def src_fill_stmt(self, s):
+        """(buffer Var, fallible) when the statement is `rng.fill_bytes(buf.as_mut());` / `rng.try_fill_bytes(buf.as_mut())?;`"""
+        if s[0] != "expr" or self.rng is None:
+            return None
+        e, q = s[1], False
+        if e[0] == "try":
+            e, q = e[1], True
+        if e[0] == "mcall" and e[1] == ("path", [self.rng.name]) and e[2] in ("fill_bytes", "try_fill_bytes") and len(e[3]) == 1:
+            if (e[2] == "try_fill_bytes") != q or q != self.rng_fallible:
+                raise Unsupported("fill_bytes / try_fill_bytes does not match the result type")
+            d = self.dyn_of(e[3][0])
+            if d is None or d.off != "0" or d.len not in (f"{d.base.lean}.length", getattr(d.base, "len_name", None)):
+                raise Unsupported("source filled into something other than a whole local buffer")
+            return d.base
+        return None
+    C.src_fill_stmt = src_fill_stmt
+
+    def loop_body(self, stmts, names):
+        """the body of a `loop` as a step function: `(.ok (continue?, state), rng)` or the source's error"""
+        rng = self.rng.lean
+        for i, s in enumerate(stmts):
+            buf = self.src_fill_stmt(s)
+            if buf is not None:
+                self.stmts(stmts[:i])
+                bs, er = self.fresh("bytes"), self.fresh("err")
+                n = buf.ty[2] if isinstance(buf.ty, tuple) and buf.ty[0] == "arr" and isinstance(buf.ty[2], int) else f"{buf.lean}.length"
+                def g():
+                    self.emit(f"let {buf.lean} := {bs};")
+                    return self.loop_body(stmts[i + 1:], names)
+                l2, r2 = self.sub(g)
+                return (f"match fill {rng} {n} with | (.ok {bs}, {rng}) => {self.render(l2, r2)} | (.error {er}, {rng}) => (.error {er}, {rng})")
+            if s[0] == "expr" and s[1][0] == "if" and any(x == ("break",) for x in s[1][2][0]):
+                e = s[1]
+                if e[3] is not None or e[2][0] != [("break",)] or e[2][1] is not None:
+                    raise Unsupported("break inside a larger branch")
+                self.stmts(stmts[:i])
+                cv = self.expr(e[1], "bool")
+                st = self.tuple_of(names)
+                def g():
+                    return self.loop_body(stmts[i + 1:], names)
+                l2, r2 = self.sub(g)
+                return f"if {cv.lean} then (.ok (false, {st}), {rng}) else {self.render(l2, r2)}"
+            if s[0] in ("break", "continue", "return") or _contains_return(s):
+                raise Unsupported(f"{s[0]} in a loop")
+        self.stmts(stmts)
+        return f"(.ok (true, {self.tuple_of(names)}), {rng})"
+    C.loop_body = loop_body
+
+    def body_to_lean(self, stmts, tail, ret_ty, selfkind):
+        if self.rng is not None:
+            for i, s in enumerate(stmts):
+                if s[0] == "loop":
+                    lstmts = s[1][0] + ([("expr", s[1][1])] if s[1][1] is not None else [])
+                    self.stmts(stmts[:i])
+                    names = self.assigned(lstmts, None)
+                    for st_ in lstmts:
+                        b = None
+                        try:
+                            b = self.src_fill_stmt(st_)
+                        except Unsupported:
+                            pass
+                        if b is not None and not any((x is b) or (isinstance(x, str) and self.scope.get(x) is b) for x in names):
+                            names.append(b)
+                    fuel = f"fuel_{len(self.fuels) + 1}"
+                    self.fuels.append(fuel)
+                    pat, rng, er = self.tuple_of(names), self.rng.lean, self.fresh("err")
+                    def gb():
+                        return self.loop_body(lstmts, names)
+                    lb, rb = self.sub(gb)
+                    def gr():
+                        return self.body_to_lean(stmts[i + 1:], tail, ret_ty, selfkind)
+                    lr, rr = self.sub(gr)
+                    bp = pat if pat.startswith("(") else f"({pat})"
+                    return (f"match loopF {fuel} (fun {bp} {rng} => {self.render(lb, rb)}) {pat} {rng} with\n"
+                            f"  | (.ok {pat}, {rng}) => {self.render(lr, rr)}\n  | (.error {er}, {rng}) => (.error {er}, {rng})")
+        return base_body(self, stmts, tail, ret_ty, selfkind)
+    C.body_to_lean = body_to_lean
+
+_install4()
+
+def build_unit_xorshift_src(repo, report):
+    """XorShiftRng::from_rng / try_from_rng: the redraw loop around the byte source (the rest of the type is translated by the
+    plain translator, extract_units.build_unit_xorshift)"""
+    import extract_units
+    f = rsfront.load(os.path.join(repo, "rand_xorshift/src/lib.rs"))
+    lean, fields, shape = extract_units.shape_of(f.structs["XorShiftRng"])
+    ms = {}
+    for trait, ty, fns, consts in f.impls:
+        if ty == "XorShiftRng" and trait == "SeedableRng":
+            ms.update({k: v for k, v in fns.items() if k in ("from_rng", "try_from_rng") and v.body is not None})
+    TYCTX["aliases"], TYCTX["consts"] = {}, {}
+    u = RcUnit("XorShiftRng", StructInfo("XorShiftRng", lean, fields), ms, "Rngs.Ext.XorShiftRng", ["{ρ : Type}"], [])
+    u.byte_buffers = True
+    u.shape, u.seed_len, u.file = shape, 16, "rand_xorshift/src/lib.rs"
+    return u, ["from_rng", "try_from_rng"]
